@@ -63,8 +63,8 @@ int m_bst_insert(m_bst_t *l, void *data) {
     return -ENOMEM;
 }
 int m_bst_remove(m_bst_t *l, void *data) {
-    m_src_tmr_t *k = data;
-    for (int i = 0; i < NR; i++) if (reg[i] && reg[i]->tmr_src.its.ns == k->ns) { m_mem_unref(reg[i]); reg[i] = NULL; nreg--; return 0; }
+    ev_src_t *k = data;      /* deregister_mod_src() wraps the user key in a source (src.c:fill_src) */
+    for (int i = 0; i < NR; i++) if (reg[i] && reg[i]->tmr_src.its.ns == k->tmr_src.its.ns) { m_mem_unref(reg[i]); reg[i] = NULL; nreg--; return 0; }
     return -ENOENT;
 }
 
